@@ -33,7 +33,7 @@
    harness/c07.go.  The tie between [skel_step] and the real re-parse is checked
    there too (skeleton-step-differs). *)
 From Coq Require Import ZArith NArith List Bool String.
-From EvyV Require Import Base FmtAst Format FormatProofs FormatNlProofs FormatShapeProofs FormatSpecProofs FormatDepthProofs.
+From EvyV Require Import Base FmtAst Format FormatProofs FormatNlProofs FormatShapeProofs FormatSpecProofs FormatDepthProofs FmtCheckProofs.
 From EvyV Require FormatParseFuncProofs.
 Import ListNotations.
 Open Scope N_scope.
@@ -155,6 +155,29 @@ Theorem C07_check_accepts_iff_formatted : forall (parse : str -> option fprog) (
   fmt_check parse fixed t = true <-> exists p, parse t = Some p /\ t = format fixed p.
 Proof. exact fmt_check_iff. Qed.
 Print Assumptions C07_check_accepts_iff_formatted.
+
+(* what --check accepts has the shape of the formatter's output, on the bytes of the text: so no white space of any
+   kind (blank, tab, the CR of a CRLF line ending, FF, VT, NBSP ...) directly before a newline is ever accepted
+   (the parser is a parameter that yields well-formed trees; harness/c07.go runs byte-level variants of texts
+   through the real binary against this) *)
+Theorem C07_check_accepted_text_is_shaped : forall (parse : str -> option fprog) (fixed : fixes) (t : str),
+  (forall p, parse t = Some p -> wf_prog p = true) ->
+  fmt_check parse fixed t = true -> shape_lines t = true.
+Proof. exact check_accepted_is_shaped. Qed.
+Print Assumptions C07_check_accepted_text_is_shaped.
+
+Theorem C07_check_rejects_space_before_newline : forall (parse : str -> option fprog) (fixed : fixes) (a b : str) (w : N),
+  (forall p, parse (a ++ w :: 10 :: b) = Some p -> wf_prog p = true) ->
+  is_space w = true -> w <> 10 ->
+  fmt_check parse fixed (a ++ w :: 10 :: b) = false.
+Proof. exact check_rejects_space_before_newline. Qed.
+Print Assumptions C07_check_rejects_space_before_newline.
+
+Theorem C07_check_rejects_crlf : forall (parse : str -> option fprog) (fixed : fixes) (a b : str),
+  (forall p, parse (a ++ 13 :: 10 :: b) = Some p -> wf_prog p = true) ->
+  fmt_check parse fixed (a ++ 13 :: 10 :: b) = false.
+Proof. exact check_rejects_crlf. Qed.
+Print Assumptions C07_check_rejects_crlf.
 
 Theorem C07_check_accepts_own_output : forall (parse : str -> option fprog) (fixed : fixes) (p p' : fprog),
   parse (format fixed p) = Some p' ->
